@@ -82,6 +82,12 @@ func loadEngine(repo string) (*Engine, error) {
 		}
 	}
 	errPtrTags = []*Term{tagTerm(e.pathErrorPtr()), tagTerm(e.linkErrorPtr())}
+	if t := e.lookupType("os", "LinkError"); t != nil {
+		errPtrTags = append(errPtrTags, tagTerm(types.NewPointer(t)))
+	}
+	if t := e.lookupType("os", "SyscallError"); t != nil {
+		errPtrTags = append(errPtrTags, tagTerm(types.NewPointer(t)))
+	}
 	e.trusted["error values of dynamic type *PathError / *LinkError are non-nil pointers (no typed-nil errors)"] = true
 	// index functions
 	for fn := range ssautil.AllFunctions(prog) {
